@@ -25,6 +25,7 @@ import (
 	"gopkg.in/go-playground/validator.v9"
 	k8svalidation "k8s.io/apimachinery/pkg/util/validation"
 
+	"github.com/projectcalico/calico/lib/std/uniquelabels"
 	api "github.com/projectcalico/calico/libcalico-go/lib/apis/v1"
 	"github.com/projectcalico/calico/libcalico-go/lib/backend/model"
 	"github.com/projectcalico/calico/libcalico-go/lib/errors"
@@ -89,6 +90,18 @@ func Validate(current any) error {
 func init() {
 	// Initialise static data.
 	validate = validator.New()
+
+	// Labels are stored as uniquelabels.Map (a struct); present them to the "labels" field validator as the
+	// map[string]string it expects, otherwise the tag on a struct-typed field is never evaluated.
+	validate.RegisterCustomTypeFunc(func(field reflect.Value) any {
+		if m, ok := field.Interface().(uniquelabels.Map); ok {
+			if m.IsNil() {
+				return map[string]string(nil)
+			}
+			return m.RecomputeOriginalMap()
+		}
+		return nil
+	}, uniquelabels.Map{})
 
 	// Register field validators.
 	registerFieldValidator("action", validateAction)
